@@ -274,7 +274,7 @@ fn main() {
         }
         run.finish();
     }
-    let eval_cases = run.by_tier(500u64, 20_000);
+    let eval_cases = run.by_tier(2_000u64, 20_000);
     par_for(3, eval_cases, &|| !run.has_time_frac(0.55), &|i| evaluator_case(&run, mix(run.seed, i)));
     let layouts = [(1usize, 1usize), (1, 2), (2, 2), (4, 1), (3, 3), (8, 2), (2, 4), (1, 8), (16, 1), (1, 16)];
     let solve_cases = run.by_tier(500u64, 50_000);
